@@ -402,3 +402,8 @@ def _site_of_name(it, r: Rendered, nm: str) -> str:
                 return l.site[0]
         return it.lines[0].site[0] if it.lines else it.entry
     return it.entry
+
+
+_ADDENDUM = ' R17.6: add_type_modules receives the final, substituted type on every path of Registry.get. Borrowed: R15.7 (aliases of nested classes are module-qualified).'
+EXPLANATION += _ADDENDUM
+LEVEL_TEXT += _ADDENDUM
